@@ -637,6 +637,9 @@ template <class T> std::vector<std::pair<T, T>> all_intervals()
 }
 
 void register_plain();     // C20.cpp
+void register_unsigned();  // C20_unsigned.cpp
 void register_wrapped();   // C20_wrapped.cpp
+void register_enum();      // C20_enum.cpp
+void register_real();      // C20_real.cpp
 void register_container(); // C20_container.cpp
 }
